@@ -157,6 +157,13 @@ func (env *Env) callExpr(c *ast.CallExpr) Value {
 		return Value{T: tFloat, S: env.x.intToFloat(env.s, v.S)}
 	case "fp_lt":
 		return Value{T: tBool, S: app("fp.lt", arg(0).S, arg(1).S)}
+	case "iface": // box a value into interface{} (nil stays the nil interface)
+		v := arg(0)
+		it := types.NewInterfaceType(nil, nil)
+		if isNilVal(v) {
+			return zeroValue(it)
+		}
+		return env.x.makeIface(env.s, v, it)
 	case "layerkey": // what Key.Layer hands to mast's default layer function: (dyn type tag, payload)
 		v := arg(0)
 		return v
@@ -355,6 +362,9 @@ func (x *Exec) localValue(s *State, v ssa.Value) Value {
 		p := s.env[a]
 		et := a.Type().Underlying().(*types.Pointer).Elem()
 		if _, isStruct := et.Underlying().(*types.Struct); isStruct && kindOf(et) == kStruct {
+			return p
+		}
+		if _, isArr := et.Underlying().(*types.Array); isArr {
 			return p
 		}
 		return s.loadFrom(s.heap, p)
